@@ -808,10 +808,7 @@ package seccomp
 //@   assert @ne_mt {C07!} NE0 ==> ghost.mt[i] == firstIdxAbove(old(p.labels)[old(p.jumps)[i].trueLabel], old(p.jumps)[i].index, 0) at after assign longFalse#1
 //@   assert @ne_mf {C07!} NE0 ==> ghost.mf[i] == firstIdxAbove(old(p.labels)[old(p.jumps)[i].falseLabel], old(p.jumps)[i].index, 0) at after assign longFalse#1
 //@   assert @ne_skips {C07!} NE0 ==> skipTrue >= 1 || skipFalse >= 1 at after assign longFalse#1
-//@   use monoShift(jump.index + 1) at before call Program.insertBridge#1
-//@   use monoShift(jump.index + 1) at before call Program.insertBridge#2
-//@   use monoShift(jump.index + 1) at before call Program.insertBridge#3
-//@   use monoShift(jump.index + 1) at before call Program.insertBridge#4
+//@   use monoShift(jump.index + 1) at before call Program.insertBridge#*
 //@   let n0 = len(p.instructions)
 //@   let nJ = len(p.jumps)
 //@   loop 1 match len(p.jumps) - 1
@@ -842,12 +839,12 @@ package seccomp
 //@   assert @bt_old forall(k, i + 1, nJ, resBT(old(*p), p.instructions, k)) at loop 1 end
 //@   assert @bf_new resBF(old(*p), p.instructions, i) at loop 1 end
 //@   assert @bf_old forall(k, i + 1, nJ, resBF(old(*p), p.instructions, k)) at loop 1 end
-//@   ghost ghost.mt = store(ghost.mt, i, firstIdxAbove(p.labels[jump.trueLabel], jump.index, 0)) at after call Program.computeSkipN#1
-//@   ghost ghost.mf = store(ghost.mf, i, firstIdxAbove(p.labels[jump.falseLabel], jump.index, 0)) at after call Program.computeSkipN#2
-//@   ghost ghost.wm = ghost.mf[i] at before call Program.insertBridge#1
-//@   ghost ghost.wm = ghost.mt[i] at before call Program.insertBridge#2
-//@   ghost ghost.wm = ghost.mt[i] at before call Program.insertBridge#3
-//@   ghost ghost.wm = ghost.mf[i] at before call Program.insertBridge#4
+// the ghost bookkeeping is attached to what is computed, not to the order of the statements: the witness of a branch is
+// recorded where its skip is assigned, and every call of insertBridge names the witness that belongs to the label it is
+// given (if both labels are the same, so are the two witnesses)
+//@   ghost ghost.mt = store(ghost.mt, i, firstIdxAbove(p.labels[jump.trueLabel], jump.index, 0)) at after assign skipTrue#1
+//@   ghost ghost.mf = store(ghost.mf, i, firstIdxAbove(p.labels[jump.falseLabel], jump.index, 0)) at after assign skipFalse#1
+//@   ghost ghost.wm = ite(call.arg2 == jump.trueLabel, ghost.mt[i], ghost.mf[i]) at before call Program.insertBridge#*
 //@   use simInd(old(*p), p.instructions, 0, A0) at after loop 1
 //@   use runLP(old(*p), 0, A0) at after loop 1
 
